@@ -1,9 +1,10 @@
 (* server/server.go: the cache-less branch of cachingFunc, preprocessHeaders,
-   writeError, clearAndCopyHeaders and requestHandler without recompression.
+   writeError, clearAndCopyHeaders and requestHandler with its recompression step (the body is
+   carried as its decoded content: the harness's client decodes what it receives).
    Definitions only. *)
 From Coq Require Import String.
 From Coq Require Import List NArith ZArith Bool.
-From Verif Require Import GoStr GoNum GoHeader Tables Route Forward.
+From Verif Require Import GoStr GoNum GoHeader Tables Route Forward Recompress.
 Import ListNotations.
 Open Scope N_scope.
 
@@ -45,6 +46,29 @@ Definition clear_and_copy (origin : hdrs) (always : hdrs) : hdrs :=
 
 Definition s_pass : str := bytes "pass"%string.
 
+(* requestHandler's recompression: proxy.go decides (rule flag, Cache-Control: no-transform, the
+   request's Accept-Encoding, the origin's Content-Encoding and Content-Type); server.go edits the head.
+   The decoded content does not change: that is C06. *)
+Definition recompress_hdrs (recomp : bool) (req_hdrs : hdrs) (origin : hdrs) (h : hdrs) : hdrs :=
+  if recomp && can_transform (hget origin (bytes "Cache-Control"%string)) then
+    let '(add, remove) := get_recompression (hget req_hdrs (bytes "Accept-Encoding"%string))
+                                            (hget origin (bytes "Content-Encoding"%string))
+                                            (hget origin (bytes "Content-Type"%string)) in
+    let h1 := match remove with
+              | CGzip => hdel (hdel h (bytes "Content-Length"%string)) (bytes "Content-Encoding"%string)
+              | _ => h
+              end in
+    match add with
+    | CNone => h1
+    | _ =>
+      let h2 := hset (hdel h1 (bytes "Content-Length"%string)) (bytes "Content-Encoding"%string) (enc_name add) in
+      let vary := hget h2 (bytes "Vary"%string) in
+      let vary' := if nonempty vary && negb (contains (to_lower vary) (bytes "accept-encoding"%string))
+                   then vary ++ bytes ", Accept-Encoding"%string else bytes "Accept-Encoding"%string in
+      hset h2 (bytes "Vary"%string) vary'
+    end
+  else h.
+
 Record serve_out := mkServeOut { so_client : client; so_log : list dlv }.
 
 (* cachingFunc for a rule without a cache (or a method other than GET/HEAD) *)
@@ -73,7 +97,8 @@ Definition serve_nocache (fuel : nat) (c : cfg) (rs : list rule) (q : req) (sc :
                            (rs_body (ro_resp ok)) false) (rt_log out)
       | _, _ =>
         mkServeOut (mkClient KOrigin (rs_status (ro_resp ok))
-                      (clear_and_copy (rs_hdrs (ro_resp ok)) (always_include (ro_rule ok) s_pass))
+                      (recompress_hdrs (r_recomp (ro_rule ok)) h' (rs_hdrs (ro_resp ok))
+                         (clear_and_copy (rs_hdrs (ro_resp ok)) (always_include (ro_rule ok) s_pass)))
                       (rs_body (ro_resp ok)) false) (rt_log out)
       end
     end.
